@@ -269,6 +269,10 @@ type SimCache struct {
 	Trace *[]Call
 	Puts  int
 	Gets  int
+	// Evict: a bounded cache - on a Get that would hit, Evict() may say the entry has been dropped in
+	// the meantime (a user-supplied Cache need not keep what it was given)
+	Evict   func() bool
+	Evicted int
 }
 
 func NewSimCache(trace *[]Call) *SimCache {
@@ -278,6 +282,11 @@ func NewSimCache(trace *[]Call) *SimCache {
 func (c *SimCache) Get(p string) *jet.Template {
 	c.Gets++
 	t := c.M[p]
+	if t != nil && c.Evict != nil && c.Evict() {
+		delete(c.M, p)
+		t = nil
+		c.Evicted++
+	}
 	r := "miss"
 	if t != nil {
 		r = "hit"
